@@ -93,7 +93,7 @@ func c13BinCases(cfg Config) []*c13Case {
 		&c13Case{Origin: "bin-read-eof", Calls: []cCall{call("read"), call("print", vStr("ok"))}},
 		&c13Case{Origin: "bin-ok", Calls: []cCall{call("print", vNum(1), vStr("é"), vArr(tyNum, vNum(1), vNum(2)))}},
 	)
-	n := cfg.N(40, 600)
+	n := cfg.N(40, 300)
 	for i := 0; i < n; i++ {
 		c := &c13Case{Origin: "bin-random"}
 		c.FailFast = cfg.Rng.Intn(3) == 0
